@@ -202,7 +202,7 @@ pub fn start_tracker(sw: u8, wm: u8) -> Tracker {
     let mut child = TrackerChild::spawn("ws", cfg, &[("AQV_PORT_PER_WORKER", "1".into())]);
     let t0 = Instant::now();
     'outer: loop {
-        if child.exited().is_some() || t0.elapsed() > Duration::from_secs(15) {
+        if child.exited().is_some() || t0.elapsed() > Duration::from_secs(90) {
             machinery_failure("ws tracker did not start");
         }
         for w in 0..sw {
